@@ -1,6 +1,6 @@
 (* C11 model runner.  One case per line:
    <id> <cfg6bits> <preserve01> <wd> <cwd> <nprep> {d <path> | f <path> <tag> | l <path> <target> | h <path> <earlier file>}* <npush>
-        { B <title> <tag> | M <nlayers> {<title> <tag>}* | U <title> <nent> { (r <name> <tag> <mode> | d <name> <mode> | h <name> <tgt> | s <name> <tgt> | o <name>) <time> }* }*
+        { B <title> <tag> | M <nlayers> {<title> <tag>}* | (U | F <how>) <title> <nent> { (r <name> <tag> <mode> | d <name> <mode> | h <name> <tgt> | s <name> <tgt> | o <name>) <time> }* }*
    strings are hex ("-" = empty); paths are absolute slash-separated strings; modes decimal.
    Pre-populated directories have mode 0755, files 0644.
    Output: <id> {<O|E><8 hex digits: md5 of the listing after that push>}*|<hexpath>:<dMODE|fTAGmMODE|lHEXTARGET>,... sorted by hexpath *)
@@ -48,7 +48,9 @@ let run_case id toks =
     match next () with
     | "B" -> let t = str_of_hex (next ()) in let tag = int_of_string (next ()) in
              ops := PBlob (t, n_of_int tag) :: !ops
-    | "U" -> let t = str_of_hex (next ()) in
+    | ("U" | "F") as kd ->
+             let how = if kd = "F" then int_of_string (next ()) else 0 in
+             let t = str_of_hex (next ()) in
              let ne = int_of_string (next ()) in
              let es = ref [] and ts = ref [] in
              for _ = 1 to ne do
@@ -64,7 +66,8 @@ let run_case id toks =
                | k -> failwith ("entry kind " ^ k));
                ts := n_of_int (int_of_string (next ())) :: !ts
              done;
-             ops := PDir (t, List.rev !ts, List.rev !es) :: !ops
+             ops := (if how = 0 then PDir (t, List.rev !ts, List.rev !es)
+                     else PDirF (n_of_int how, t, List.rev !ts, List.rev !es)) :: !ops
     | "M" -> let nl = int_of_string (next ()) in
              let ls = ref [] in
              for _ = 1 to nl do
